@@ -1,39 +1,63 @@
 #!/bin/bash
-# seed_regress.sh [tier]: re-run the registered check of every confirmed seeded change under
-# /verif/seeded/<id>/ against /repo's HEAD with that change applied (applied, checked, reverted
-# straight afterwards), and write /verif/seeded/RESULTS.md.  Seeds whose patch no longer applies
-# to HEAD (a later "fix:" commit rewrote the lines) are listed with the base they were confirmed on.
+# seed_regress.sh [tier] [budget-minutes]: re-run the registered check of the confirmed seeded
+# changes under /verif/seeded/<id>/ against /repo's HEAD with that change applied (applied, checked,
+# reverted straight afterwards), newest rounds first, until the time budget is used up, and write
+# /verif/seeded/RESULTS.md.  Seeds whose patch no longer applies to HEAD (a later "fix:" commit
+# rewrote the lines) and seeds not reached within the budget are listed with the outcome recorded
+# when they were confirmed (meta.json).
 set -u
 TIER=${1:-quick}
+BUDGET=$(( ${2:-120} * 60 ))
+START=$(date +%s)
 cd /verif
+if [ -n "$(git -C /repo status --short)" ]; then echo "/repo is not clean"; exit 2; fi
 OUT=/verif/seeded/RESULTS.md
 HEAD=$(git -C /repo rev-parse --short HEAD)
+TMP=$(mktemp)
+# newest rounds first: ids look like C07-r9m1, C07-r2m2, C07-m1 (round 1)
+ls -d /verif/seeded/C*/ | xargs -n1 basename | python3 -c "
+import sys,re
+ids=[l.strip() for l in sys.stdin if l.strip()]
+def key(i):
+    m=re.search(r'-r(\d+)m',i); return (-(int(m.group(1)) if m else 1), i)
+print('\n'.join(sorted(ids,key=key)))" > $TMP
 {
-echo "# Seeded changes against the checks (regenerated by lib/seed_regress.sh $TIER; /repo HEAD $HEAD)"
+echo "# Seeded changes against the checks (lib/seed_regress.sh $TIER; /repo HEAD $HEAD)"
 echo
-echo "| seed | property | what was changed | check run | result | first violation reported |"
+echo "Re-run = the change was applied to /repo at this HEAD, the registered check run, the change reverted."
+echo "Recorded = outcome stored in the seed's meta.json when it was confirmed (on the HEAD of that time)."
+echo
+echo "| seed | property | what was changed | how judged | result | first violation reported |"
 echo "|---|---|---|---|---|---|"
 } > $OUT
-for d in /verif/seeded/C*/; do
-  ID=$(basename $d)
+while read ID; do
+  d=/verif/seeded/$ID
   [ -f $d/patch.diff ] || continue
   PROP=$(python3 -c "import json;print(json.load(open('$d/meta.json')).get('property','${ID%%-*}'))")
-  SUMMARY=$(python3 -c "import json;print(json.load(open('$d/meta.json')).get('summary','').replace('|','/').replace('\n',' ')[:220])")
+  SUMMARY=$(python3 -c "import json;print(json.load(open('$d/meta.json')).get('summary','').replace('|','/').replace('\n',' ')[:200])")
+  REC=$(python3 -c "
+import json
+m=json.load(open('$d/meta.json')); c=m.get('check',{}); f=m.get('confirmed',{})
+print(('caught' if c.get('detected') else 'MISSED')+' (exit %s, on %s)'%(c.get('exit','?'), f.get('base','?')))")
+  NOW=$(date +%s)
+  if [ $((NOW-START)) -gt $BUDGET ]; then
+    echo "| $ID | $PROP | $SUMMARY | recorded (not reached within the time budget) | $REC | |" >> $OUT; continue
+  fi
   if ! git -C /repo apply --check $d/patch.diff 2>/dev/null; then
-    BASE=$(python3 -c "import json;m=json.load(open('$d/meta.json'));print(m.get('confirmed',{}).get('base','?'), 'detected' if m.get('check',{}).get('detected') else 'not detected')")
-    echo "| $ID | $PROP | $SUMMARY | ./check $PROP $TIER | patch no longer applies to HEAD (confirmed on $BASE then) | |" >> $OUT
-    continue
+    echo "| $ID | $PROP | $SUMMARY | recorded (patch no longer applies to HEAD) | $REC | |" >> $OUT; continue
   fi
   git -C /repo apply $d/patch.diff
   ./check $PROP $TIER > /tmp/seedreg-$ID.log 2>&1; RC=$?
   git -C /repo checkout -- .
-  FIRST=$(grep -m1 "violation:" /tmp/seedreg-$ID.log | sed 's/^\[check\] violation: //' | tr '|' '/' | cut -c1-260)
+  FIRST=$(grep -m1 "violation:" /tmp/seedreg-$ID.log | sed 's/^\[check\] violation: //' | tr '|' '/' | cut -c1-220)
   case $RC in
     1) RES="**caught** (exit 1, $(grep -c '^VIOLATION' /tmp/seedreg-$ID.log) VIOLATION line(s))";;
     0) RES="MISSED (exit 0)";;
     *) RES="infrastructure error (exit $RC)";;
   esac
-  echo "| $ID | $PROP | $SUMMARY | ./check $PROP $TIER | $RES | $FIRST |" >> $OUT
+  echo "| $ID | $PROP | $SUMMARY | re-run: ./check $PROP $TIER | $RES | $FIRST |" >> $OUT
   echo "$ID $PROP rc=$RC"
-done
+  rm -f /tmp/seedreg-$ID.log
+done < $TMP
+rm -f $TMP
 git -C /repo status --short
